@@ -341,10 +341,16 @@ def run_real(ctx):
         ops = []
         for h in live:
             w, kn = h["sel"][h["i"]]
-            rcp = rng.choice([{"header": {"alg": w}}, {"header": {"alg": w, "kid": kid(h["i"])}}, {}]) if False else {"header": {"alg": w, "kid": kid(h["i"])}}
+            # the recipient template names the algorithm, or leaves it to be inferred from the key (where the inference for
+            # this key gives this algorithm): none, empty, or only other members
+            inferable = (w, kn) in (("A128KW", "oct-16"), ("A192KW", "oct-24"), ("ECDH-ES+A128KW", "EC-P256"), ("ECDH-ES+A256KW", "EC-P521"), ("RSA-OAEP", "RSA-2048"))
+            forms = [{"header": {"alg": w, "kid": kid(h["i"])}}, {"header": {"alg": w}}] + ([None, {}, {"header": {"kid": kid(h["i"])}}] if inferable else [])
+            rcp = rng.choice(forms)
             h["rcp"] = rcp
-            ops.append(("jwe.enc_jwk", {"jwe": h["jwe"], "rcp": rcp, "jwk": key(kn), "cek": h["cek"], "rand": rng.randbytes(200).hex(),
-                                        "_wrap": w, "_expect_ok": True}))
+            a_ = {"jwe": h["jwe"], "jwk": key(kn), "cek": h["cek"], "rand": rng.randbytes(200).hex(), "_wrap": w, "_expect_ok": True}
+            if rcp is not None:
+                a_["rcp"] = rcp
+            ops.append(("jwe.enc_jwk", a_))
         real, model = C04.cmp(ctx, ops, C04.p_enc)
         for h, r in zip(live, real):
             h["i"] += 1
@@ -352,6 +358,11 @@ def run_real(ctx):
                 h["dead"] = True
                 continue
             pf = check_step("jwe", h["jwe"], r["jwe"], h["rcp"], None)
+            if not pf:
+                # the entry just added names, in its own header, the algorithm applied (given or inferred)
+                new_ = jwe_entries(r["jwe"])[-1]
+                if (new_.get("header") or {}).get("alg") != h["sel"][h["i"] - 1][0]:
+                    pf = ("real:alg-recorded", "the entry added for %s names %r in its header: %s" % (h["sel"][h["i"] - 1][0], (new_.get("header") or {}).get("alg"), json.dumps(new_)[:200]))
             if pf:
                 ctx.pfails.append((pf[0], pf[1], "jwe.enc_jwk", {"jwe": h["jwe"], "rcp": h["rcp"], "jwk": key(h["sel"][h["i"] - 1][1]), "cek": h["cek"]}, r))
             h["jwe"], h["cek"] = r["jwe"], r["cek"]
